@@ -203,7 +203,7 @@ def range_proofs(ctx):
         st = ctx.tlc("MC_RangeBridge", {"W": w, "S": s, "MaxData": md}, invariants=["DecBridge", "EncBridge", "SealBridge"], workers=12, timeout=3000, label="MC_RangeBridge_%d_%d" % (w, s))
         if st["spec_violation"]:
             raise core.ToolError("MC_RangeBridge: Range.tla does not compute the step proved in spec/proofs at W=%d S=%d:\n%s" % (w, s, st.get("counterexample", "")))
-    ctx.require("tlaps_obligations_proved", 350)
+    ctx.require("tlaps_obligations_proved", 500)
 
 
 def ans_proofs(ctx):
@@ -374,7 +374,7 @@ def c02(ctx):
 @prop("C11")
 def c11(ctx):
     range_proofs(ctx)        # RangeSeal.tla: the sealing rule for all widths (normal situation), tied to SealWords by MC_RangeBridge
-    range_hists(ctx, ["TypeInv", "StateInv", "SuffixOK"], "c11")
+    range_hists(ctx, ["TypeInv", "StateInv", "SuffixOK", "SealInvBridge"], "c11")
     for c in RANGE_CLASSES:
         ctx.require(c)
 
